@@ -348,7 +348,10 @@ def reference(t, r):
             return "any", t                           # destination is an ancestor of the source
         if not srcdir and (is_dir(t, dst) or dslash):
             return "any", t                           # file "into" a collection: lighttpd extension
-        if srcdir and is_dir(t, dst) and (subtree(t, dst).keys() - {dst} or r.depth == "0"):
+        if srcdir and r.depth == "0" and exists(t, dst):
+            return "any", t      # Depth:0 onto an existing resource: lighttpd answers 204 (collection,
+                                 # Overwrite ignored) or 403 (non-collection), tree unchanged either way
+        if srcdir and is_dir(t, dst) and subtree(t, dst).keys() - {dst}:
             return ("any", t) if r.ow != "F" else ("fail", t)   # merge into an existing collection
         if exists(t, dst) and r.ow == "F":
             return "fail", t
@@ -675,6 +678,7 @@ def run_sequence(srv, host, reqs, expect):
     hb = host.encode()
     before = {}
     keys = []
+    last_mut = "start"
     for i, r in enumerate(reqs):
         etag = None
         if r.pre[0] == "m" and is_file(before, r.src) and not r.slash:
@@ -699,12 +703,15 @@ def run_sequence(srv, host, reqs, expect):
                         (render(r.src, r.slash).decode("latin-1"),
                          perr or ("%d %r" % (status, body[:40])),
                          "no such resource" if es == 404 else repr(eb[:40])))
-                return i + 1, dict(kind="oracle", sig="stale-read", what=what, step=i, obs=obs, model=exp), keys
+                return i + 1, dict(kind="oracle", sig="stale-read:after-" + last_mut, what=what, step=i, obs=obs,
+                                   model=exp), keys
             if exp is not None and exp != obs:
                 return i + 1, dict(kind="corr", sig="GET", what="GET: server %s, model %s" % (obs, exp), step=i,
                                    obs=obs, model=exp), keys
             continue
         after = snapshot(docroot)
+        last_mut = r.m + ("-empty" if r.m == "PUT" and not r.body and r.range == "-" else "") + \
+            ("-collection" if is_dir(before, r.src) else "")
         obs = "%d;%s" % (status, dump(after))
         verdict, reftree = reference(before, r)
         keys.append("%s:%d:%s" % (r.m, status, verdict))
@@ -855,12 +862,727 @@ class StraceServer(e2e.Server):
         raise RuntimeError("lighttpd (strace) did not start: " + self.logs()[-2000:])
 
 
+# ------------------------------------------------------------------------------------------------
+# PUT protocol: strace abstraction, trace validation, fault and kill injection
+# ------------------------------------------------------------------------------------------------
+TRACE_LINE = re.compile(r"^(\d+)\s+(\w+)\((.*?)\)?\s+= (-?\d+|\?)(?: (E[A-Z]+))?.*?(\(INJECTED\))?$")
+PATHS = re.compile(r'"((?:[^"\\]|\\.)*)"')
+FATAL = ("ENOSPC", "EIO", "EDQUOT", "EFBIG")
+
+
+def parse_trace(text):
+    """[(syscall, args, ret|None, errno|None, injected)] of the completed calls, plus kill marker"""
+    out = []
+    killed = False
+    for ln in text.split("\n"):
+        if "+++ killed by" in ln:
+            killed = True
+            continue
+        m = TRACE_LINE.match(ln)
+        if not m:
+            continue
+        ret = None if m.group(4) == "?" else int(m.group(4))
+        out.append((m.group(2), m.group(3), ret, m.group(5), bool(m.group(6))))
+    return out, killed
+
+
+def abstract(calls, target, kind):
+    """strace calls -> events of Model/DavPut.lean (only what touches the target / staged names)"""
+    d = os.path.dirname(target)
+    staged = re.compile(re.escape(target) + r"\.\d+\.[0-9a-f]+~$")
+    mkst = re.compile(re.escape(target) + r"-[A-Za-z0-9]{6}$")
+    A = B = X = I = J = None
+    M = None                # mkostemp fallback name awaiting unlink
+    ev = []
+    for name, args, ret, errno, inj in calls:
+        paths = [p for p in PATHS.findall(args)]
+        ok = ret is not None and ret >= 0
+        fd0 = None
+        m0 = re.match(r"\s*(\d+)", args)
+        if m0:
+            fd0 = int(m0.group(1))
+        if name in ("openat", "open"):
+            if not paths:
+                continue
+            pth = paths[0]
+            if pth == d and "O_TMPFILE" in args:
+                ev.append("tmpfile" if ok else "tmpfile!")
+                if ok:
+                    A = ret
+            elif pth == target:
+                if "O_CREAT" in args and "O_EXCL" in args:
+                    ev.append("openExcl" if ok else "openExcl!")
+                    X = ret if ok else X
+                elif "O_CREAT" in args and "O_TRUNC" in args:
+                    ev.append("openTrunc" if ok else "openTrunc!")
+                    X = ret if ok else X
+                elif "O_TRUNC" in args:
+                    ev.append("other")
+                elif "O_WRONLY" in args or "O_RDWR" in args:
+                    ev.append("openOld" if ok else "openOld!")
+                    I = ret if ok else I
+                elif ok:
+                    J = ret
+            elif staged.match(pth):
+                if "O_CREAT" in args:
+                    ev.append("openTmpExcl" if ok else "openTmpExcl!")
+                    B = ret if ok else B
+                elif ok and "O_WRONLY" in args:
+                    B = ret
+            elif mkst.match(pth):
+                if ok:
+                    M, A = pth, ret
+                else:
+                    ev.append("tmpfile!")
+        elif name in ("write", "pwrite64", "pwritev", "pwritev2", "writev"):
+            if fd0 is not None and fd0 in (A, B):
+                if ok:
+                    ev.append("write:%d" % ret)
+                elif errno not in ("EINTR", "EAGAIN"):
+                    ev.append("write!")
+            elif fd0 is not None and fd0 in (X, I):
+                ev.append("other")
+        elif name in ("sendfile", "copy_file_range"):
+            nums = re.findall(r"(?:^|, )(\d+)(?=,|$)", args)
+            if name == "sendfile":
+                out_fd, in_fd = (int(nums[0]), int(nums[1])) if len(nums) >= 2 else (None, None)
+            else:
+                mm = re.match(r"\s*(\d+), [^,]*, (\d+),", args)
+                in_fd, out_fd = (int(mm.group(1)), int(mm.group(2))) if mm else (None, None)
+            if out_fd is not None and out_fd in (A, B):
+                what = "copyOld" if in_fd == J and J is not None else "write"
+                if ok:
+                    if ret > 0:
+                        ev.append("%s:%d" % (what, ret))
+                elif errno in FATAL and (name == "sendfile" or what == "copyOld"):
+                    ev.append(what + "!")
+            elif out_fd is not None and out_fd in (X, I):
+                ev.append("other")
+        elif name == "lseek":
+            if fd0 is not None and fd0 == B and not ok:
+                ev.append("seekFail")
+        elif name == "linkat":
+            if len(paths) >= 2 and staged.match(paths[1]) and paths[0].startswith("/proc/self/fd/"):
+                ev.append("link" if ok else "link!")
+            elif any(pp == target or staged.match(pp) for pp in paths):
+                ev.append("other")
+        elif name in ("rename", "renameat", "renameat2"):
+            if len(paths) >= 2 and staged.match(paths[0]) and paths[1] == target:
+                if "RENAME_NOREPLACE" in args:
+                    ev.append("renameNr" if ok else "renameNr!")
+                else:
+                    ev.append("rename" if ok else "rename!")
+            elif any(pp == target or staged.match(pp) for pp in paths):
+                ev.append("other")
+        elif name in ("unlink", "unlinkat"):
+            if paths and staged.match(paths[-1]):
+                ev.append("unlinkTmp")
+            elif paths and M is not None and paths[-1] == M:
+                if ok:
+                    ev.append("tmpfile")
+                M = None
+            elif paths and paths[-1] == target:
+                ev.append("other")
+        elif name == "close":
+            if fd0 is None:
+                continue
+            if fd0 == A:
+                ev.append("close"); A = None
+            elif fd0 == X:
+                ev.append("close"); X = None
+            elif fd0 == B:
+                ev.append("closeTmp"); B = None
+            elif fd0 == I:
+                I = None
+            elif fd0 == J:
+                J = None
+        elif name in ("truncate", "ftruncate"):
+            if (paths and paths[0] == target) or (fd0 is not None and fd0 in (X, I)):
+                ev.append("other")
+        elif name in ("mkdir", "mkdirat", "rmdir", "symlink", "symlinkat", "link", "chmod", "fchmodat"):
+            if any(pp == target or staged.match(pp) for pp in paths):
+                ev.append("other")
+    return ev
+
+
+class PutCase:
+    def __init__(self, kind, old, body, pre="----", name="t"):
+        self.kind, self.old, self.body, self.pre, self.name = kind, old, body, pre, name
+
+    def req(self):
+        rng_hdr = "-" if not self.kind.startswith("part") else self.kind.split(":")[1]
+        return Req("PUT", [self.name.encode()], False, pre=self.pre, body=self.body, range=rng_hdr)
+
+    def new(self):
+        if self.kind == "full":
+            return self.body
+        if self.kind == "zero":
+            return b""
+        return patch(self.old or b"", int(self.kind.split(":")[1]), self.body)
+
+    def model_line(self, events):
+        return "put %s %s %s %s" % (self.kind, "none" if self.old is None else C.hx(self.old), C.hx(self.body),
+                                    " ".join(events))
+
+    def describe(self):
+        return "PUT(%s) old=%s body=%d bytes pre=%s" % (
+            self.kind, "absent" if self.old is None else "%d bytes" % len(self.old), len(self.body), self.pre)
+
+
+def pat(seed, n):
+    return bytes((seed * 31 + i * 7 + (i >> 8) * 3) & 0xff for i in range(n))
+
+
+def put_cases(ctx):
+    cs = []
+    for old in (None, b"old-content", pat(1, 30000)):
+        for n in ((1, 100, 9000, 70000) if ctx.quick else (1, 2, 100, 4095, 9000, 65536, 70000, 300000)):
+            cs.append(PutCase("full", old, pat(n, n)))
+    cs.append(PutCase("full", b"old", b"new", pre="x---"))
+    cs.append(PutCase("full", b"old", b"new", pre="-s--"))
+    cs.append(PutCase("full", None, b"new", pre="m---"))
+    cs.append(PutCase("zero", None, b""))
+    cs.append(PutCase("zero", b"old-content", b""))
+    cs.append(PutCase("zero", b"old-content", b"", pre="x---"))
+    for old in (b"0123456789", pat(2, 30000)):
+        for off in (0, 5, len(old), len(old) + 7):
+            for n in ((1, 30000) if ctx.quick else (1, 5, 30000, 200000)):
+                cs.append(PutCase("part:%d" % off, old, pat(n + 1, n)))
+    cs.append(PutCase("part:0", b"", b"abc"))
+    cs.append(PutCase("part:3", b"0123456789", b""))
+    cs.append(PutCase("part:3", None, b"abc"))
+    cs.append(PutCase("part:3", b"0123456789", b"abc", pre="x---"))
+    return cs
+
+
+def dir_state(docroot, name):
+    """(target content | None, [other names])"""
+    try:
+        names = sorted(os.listdir(docroot))
+    except OSError:
+        return None, ["<collection missing>"]
+    tgt = None
+    if name in names:
+        with open(os.path.join(docroot, name), "rb") as f:
+            tgt = f.read()
+    return tgt, [n for n in names if n != name]
+
+
+def judge_put(case, status, tgt, others, uploads, killed):
+    """the property on one PUT outcome; returns (sig, message) or None"""
+    new = case.new()
+    d = case.describe()
+    if tgt != case.old and tgt != new:
+        return ("put-mixed", "%s (status %s%s): target holds neither the complete old nor the complete new "
+                "content (%s bytes, differs from old at %s, from new at %s)" %
+                (d, status, ", server killed" if killed else "", "no" if tgt is None else len(tgt),
+                 first_diff(tgt, case.old), first_diff(tgt, new)))
+    if not killed:
+        if others or uploads:
+            return ("tmp-left", "%s (status %s): temporary names left behind: %r %r" % (d, status, others, uploads))
+        if status is not None and 200 <= status < 300 and tgt != new:
+            return ("put-success-not-applied", "%s answered %d but the target does not hold the new content" %
+                    (d, status))
+        if status is not None and status >= 300 and tgt != case.old:
+            return ("put-error-changed", "%s answered %d but the target changed" % (d, status))
+    else:
+        bad = [n for n in others if not re.fullmatch(re.escape(case.name) + r"(\.\d+\.[0-9a-f]+~|-[A-Za-z0-9]{6})", n)]
+        if bad or len(others) > 1:
+            return ("tmp-left", "%s, server killed: unexpected names left: %r" % (d, others))
+    return None
+
+
+def first_diff(a, b):
+    if a is None or b is None:
+        return "n/a"
+    for i, (x, y) in enumerate(zip(a, b)):
+        if x != y:
+            return "byte %d" % i
+    return "length %d vs %d" % (len(a), len(b)) if len(a) != len(b) else "-"
+
+
+def do_put(srv, host, case, timeout=15.0):
+    docroot = os.path.join(srv.root, "v", host)
+    os.makedirs(docroot, exist_ok=True)
+    if case.old is not None:
+        with open(os.path.join(docroot, case.name), "wb") as f:
+            f.write(case.old)
+    mark = os.path.getsize(srv.trace) if hasattr(srv, "trace") and os.path.exists(srv.trace) else 0
+    try:
+        status, _, _ = http(srv.port, wire(case.req(), host.encode(), None), timeout=timeout)
+    except e2e.RespParseError:
+        status = None
+    return docroot, mark, status
+
+
+def trace_slice(srv, mark, settle=0.15):
+    time.sleep(settle)
+    with open(srv.trace, "rb") as f:
+        f.seek(mark)
+        return f.read().decode("latin-1")
+
+
+def model_put(lines):
+    out, rc, err = C.run_model("dav", lines)
+    return out if rc == 0 and len(out) == len(lines) else None
+
+
+def check_prediction(case, mo, status, tgt, others):
+    """compare the protocol model's final state with the directory; returns message or None"""
+    f = mo.split(" ")
+    if f[0] != "accept":
+        return "system-call trace is not a word of the PUT protocol (%s)" % mo
+    pc, st = f[1], int(f[2])
+    pred_t = f[3].split("=", 1)[1]
+    pred_tmp = f[4].split("=", 1)[1]
+    pred_anon = f[5].split("=", 1)[1]
+    act_t = "none" if tgt is None else "some:" + C.hx(tgt)
+    quiet = pc in ("start", "start2", "pExcl", "zTrunc") and pred_tmp == "none" and pred_anon == "none"
+    if pc != "done" and not quiet:
+        return "protocol not run to completion (state %s)" % pc
+    if pred_t != act_t:
+        return "protocol state predicts target %s…, directory has %s…" % (pred_t[:40], act_t[:40])
+    if (pred_tmp == "none") != (not others):
+        return "protocol state predicts staged name %s, directory has %r" % (pred_tmp[:20], others)
+    if status is not None and (((st == 2) != (200 <= status < 300)) or (quiet and status < 300)):
+        return "protocol state predicts status class %dxx, server answered %d" % (st or 4, status)
+    return None
+
+
+def stream_put_trace(ctx, bd):
+    """trace validation of un-faulted PUTs; also calibrates the injection points"""
+    t0 = time.time()
+    cases = put_cases(ctx)
+    findings = []
+    calib = []
+    nw = min(6, max(2, C.NCPU // 3))
+
+    def worker(k):
+        out = []
+        srv = start_server(bd, strace=()).start()
+        try:
+            with open(srv.trace, "rb") as f:
+                startup = f.read().decode("latin-1")
+            for ci in range(k, len(cases), nw):
+                case = cases[ci]
+                host = "p%d.test" % ci
+                docroot, mark, status = do_put(srv, host, case)
+                text = trace_slice(srv, mark)
+                calls, killed = parse_trace(text)
+                tgt, others = dir_state(docroot, case.name)
+                uploads = sorted(os.listdir(os.path.join(srv.root, "tmp")))
+                events = abstract(calls, os.path.join(docroot, case.name), case.kind)
+                out.append((ci, status, tgt, others, uploads, events, calls))
+                if not srv.alive() or srv.sanitizer_report():
+                    out.append((ci, "crash", srv.sanitizer_report() or srv.logs()[-1500:], None, None, None, None))
+                    srv.stop()
+                    srv = start_server(bd, strace=()).start()
+            with open(srv.trace, "rb") as f:
+                pass
+        finally:
+            srv.stop()
+        return startup, out
+    with ThreadPoolExecutor(nw) as ex:
+        parts = list(ex.map(worker, range(nw)))
+    startup_calls, _ = parse_trace(parts[0][0])
+    # unfinished calls count as entered, too
+    startup_count = {}
+    for ln in parts[0][0].split("\n"):
+        m = re.match(r"^\d+\s+(\w+)\(", ln)
+        if m:
+            startup_count[m.group(1)] = startup_count.get(m.group(1), 0) + 1
+    res = [x for _, part in parts for x in part]
+    lines, idx = [], []
+    for ci, status, tgt, others, uploads, events, calls in res:
+        case = cases[ci]
+        if status == "crash":
+            findings.append(dict(kind="oracle", sig="server-crash", step=ci, obs="", model="",
+                                 what="server crashed during %s: %s" % (case.describe(), str(tgt)[:1500]),
+                                 input=case.model_line([])))
+            continue
+        ctx.evaluations += 1
+        ctx.keys["put-trace:%s:%s:%s" % (case.kind.split(":")[0], "new" if case.old is None else "replace",
+                                          status)] += 1
+        j = judge_put(case, status, tgt, others, uploads, False)
+        if j:
+            findings.append(dict(kind="oracle", sig=j[0], what=j[1], step=ci, obs=" ".join(events), model="",
+                                 input=case.model_line(events)))
+        lines.append(case.model_line(events))
+        idx.append((ci, status, tgt, others, events))
+        calib.append((case, [c[0] for c in calls]))
+    mo = model_put(lines) if ctx.model_ok else None
+    if mo is None and ctx.model_ok:
+        ctx.broken.append({"kind": "model-run", "names": ["dav put"], "log": ""})
+    elif mo is not None:
+        for (ci, status, tgt, others, events), m in zip(idx, mo):
+            msg = check_prediction(cases[ci], m, status, tgt, others)
+            if msg:
+                findings.append(dict(kind="corr", sig="put-trace:" + cases[ci].kind.split(":")[0],
+                                     what="%s: %s; events: %s" % (cases[ci].describe(), msg, " ".join(events)),
+                                     step=ci, obs=" ".join(events), model=m, input=cases[ci].model_line(events)))
+    report_findings(ctx, "put-trace", findings, lambda f: f["input"][:4000])
+    ctx.streams.append({"name": "put-trace", "cases": len(cases),
+                        "disagreements": sum(1 for f in findings if f["kind"] == "corr"),
+                        "oracle_hits": sum(1 for f in findings if f["kind"] == "oracle"),
+                        "wall_s": round(time.time() - t0, 2)})
+    if lines:
+        ctx.sample({"stream": "put-trace", "input": lines[0][:300], "model": mo[0] if mo else None})
+    return startup_count, calib
+
+
+ERR_FOR = {"openat": "ENOSPC", "write": "ENOSPC", "pwritev": "ENOSPC", "pwrite64": "ENOSPC", "linkat": "EPERM",
+           "renameat2": "EINVAL", "rename": "EACCES", "renameat": "EACCES", "copy_file_range": "ENOSPC",
+           "sendfile": "EIO", "lseek": "EINVAL"}
+KILL_AT = ("read", "openat", "write", "pwritev", "linkat", "renameat2", "rename", "renameat", "newfstatat",
+           "close", "copy_file_range", "sendfile", "lseek", "unlink", "writev", "fcntl", "ioctl")
+
+
+def stream_put_fault(ctx, bd, startup_count, calib):
+    """one injected failure, or SIGKILL, at every relevant system call of a PUT"""
+    t0 = time.time()
+    rng = ctx.rng
+    jobs = []
+    # keep a representative subset of the calibrated cases
+    chosen = []
+    seen = set()
+    for case, names in calib:
+        key = (case.kind.split(":")[0], case.old is None, min(len(case.body), 70000) // 20000, case.pre)
+        if key in seen and ctx.quick:
+            continue
+        seen.add(key)
+        chosen.append((case, names))
+    for case, names in chosen:
+        cnt = {}
+        for nm in names:
+            cnt[nm] = cnt.get(nm, 0) + 1
+            k = cnt[nm]
+            if nm in ERR_FOR:
+                jobs.append((case, "%s:error=%s:when=%d" % (nm, ERR_FOR[nm], startup_count.get(nm, 0) + k), nm, k, False))
+            if nm in KILL_AT:
+                jobs.append((case, "%s:signal=SIGKILL:when=%d" % (nm, startup_count.get(nm, 0) + k), nm, k, True))
+    if ctx.quick and len(jobs) > 420:
+        keep = [j for j in jobs if not j[4]]
+        kills = [j for j in jobs if j[4]]
+        rng.shuffle(kills)
+        jobs = keep + kills[:max(0, 420 - len(keep))]
+    findings = []
+
+    def one(ji):
+        case, inj, nm, k, is_kill = jobs[ji]
+        srv = start_server(bd, strace=(inj,))
+        host = "f%d.test" % ji
+        try:
+            srv.start()
+        except RuntimeError:
+            srv.stop()
+            return ji, None
+        try:
+            docroot, mark, status = do_put(srv, host, case, timeout=6.0)
+            text = trace_slice(srv, mark, settle=0.25)
+            if is_kill:
+                try:
+                    srv.proc.wait(3)
+                except subprocess.TimeoutExpired:
+                    pass
+            dead = not srv.alive()
+            fired = ("(INJECTED)" in text) or ("killed by SIGKILL" in text) or (is_kill and dead)
+            with open(srv.trace, "rb") as f:
+                f.seek(0)
+                whole = f.read().decode("latin-1")
+            fired_before = not fired and (("(INJECTED)" in whole[:mark]) or dead)
+            calls, killed = parse_trace(text)
+            tgt, others = dir_state(docroot, case.name)
+            uploads = sorted(os.listdir(os.path.join(srv.root, "tmp")))
+            events = abstract(calls, os.path.join(docroot, case.name), case.kind)
+            rep = None if is_kill else srv.sanitizer_report()
+            return ji, dict(status=status, tgt=tgt, others=others, uploads=uploads, events=events, fired=fired,
+                            fired_before=fired_before, killed=is_kill and dead, rep=rep)
+        finally:
+            srv.stop(signal.SIGKILL)
+            shutil.rmtree(srv.root, ignore_errors=True)
+    with ThreadPoolExecutor(max(2, C.NCPU - 2)) as ex:
+        res = list(ex.map(one, range(len(jobs))))
+    lines, idx = [], []
+    nfired = 0
+    for ji, o in res:
+        case, inj, nm, k, is_kill = jobs[ji]
+        if o is None or not o["fired"]:
+            ctx.keys["put-fault:not-fired"] += 1
+            continue
+        nfired += 1
+        ctx.evaluations += 1
+        ctx.faults_fired += 1
+        ctx.keys["put-fault:%s:%s:%s:%s" % (case.kind.split(":")[0], "kill" if is_kill else "err", nm,
+                                             o["status"])] += 1
+        if o["rep"]:
+            findings.append(dict(kind="oracle", sig="server-crash", step=ji, obs=inj, model="",
+                                 what="sanitizer report during %s with %s: %s" % (case.describe(), inj, o["rep"][:1500]),
+                                 input=case.model_line(o["events"]) + " # inject=" + inj))
+            continue
+        j = judge_put(case, o["status"], o["tgt"], o["others"], o["uploads"] if not o["killed"] else [], o["killed"])
+        if j:
+            findings.append(dict(kind="oracle", sig=j[0], what=j[1] + " [strace inject=%s]" % inj, step=ji,
+                                 obs=" ".join(o["events"]), model="",
+                                 input=case.model_line(o["events"]) + " # inject=" + inj))
+            continue
+        if not o["killed"]:
+            lines.append(case.model_line(o["events"]))
+            idx.append((ji, o))
+    mo = model_put(lines) if ctx.model_ok and lines else None
+    if mo is not None:
+        for (ji, o), m in zip(idx, mo):
+            case, inj, nm, k, is_kill = jobs[ji]
+            msg = check_prediction(case, m, o["status"], o["tgt"], o["others"])
+            if msg:
+                findings.append(dict(kind="corr", sig="put-fault:%s:%s" % (case.kind.split(":")[0], nm),
+                                     what="%s with inject=%s: %s; events: %s" %
+                                     (case.describe(), inj, msg, " ".join(o["events"])), step=ji,
+                                     obs=" ".join(o["events"]), model=m,
+                                     input=case.model_line(o["events"]) + " # inject=" + inj))
+    report_findings(ctx, "put-fault", findings, lambda f: f["input"][:4000])
+    ctx.streams.append({"name": "put-fault", "cases": len(jobs), "fired": nfired,
+                        "disagreements": sum(1 for f in findings if f["kind"] == "corr"),
+                        "oracle_hits": sum(1 for f in findings if f["kind"] == "oracle"),
+                        "wall_s": round(time.time() - t0, 2)})
+    ctx.notes.append("put-fault: %d injections planned (%d error, %d SIGKILL), %d fired inside the request" %
+                     (len(jobs), sum(1 for j in jobs if not j[4]), sum(1 for j in jobs if j[4]), nfired))
+
+
+# ------------------------------------------------------------------------------------------------
+# client aborts, server kill in mid-upload, concurrent readers
+# ------------------------------------------------------------------------------------------------
+def send_partial(port, data, upto, rst):
+    s = socket.create_connection(("127.0.0.1", port), timeout=5)
+    try:
+        s.setsockopt(socket.IPPROTO_TCP, socket.TCP_NODELAY, 1)
+        try:
+            s.sendall(data[:upto])
+        except OSError:
+            pass
+        time.sleep(0.03)
+        if rst:
+            import struct
+            s.setsockopt(socket.SOL_SOCKET, socket.SO_LINGER, struct.pack("ii", 1, 0))
+    finally:
+        s.close()
+
+
+def stream_put_abort(ctx, bd):
+    t0 = time.time()
+    rng = ctx.rng
+    findings = []
+    sizes = (1000, 70000, 400000) if ctx.quick else (1000, 9000, 70000, 400000, 3000000)
+    cases = []
+    for old in (None, b"old-content", pat(3, 200000)):
+        for n in sizes:
+            for frac in (0.0, 0.001, 0.3, 0.9, 0.9999):
+                for mode in ("fin", "rst"):
+                    for enc in ("cl", "chunked") if n <= 70000 else ("cl",):
+                        cases.append((old, n, frac, mode, enc))
+    if ctx.quick:
+        rng.shuffle(cases)
+        cases = cases[:120]
+    srv = start_server(bd).start()
+    try:
+        for ci, (old, n, frac, mode, enc) in enumerate(cases):
+            host = "a%d.test" % ci
+            docroot = os.path.join(srv.root, "v", host)
+            os.makedirs(docroot)
+            if old is not None:
+                with open(os.path.join(docroot, "t"), "wb") as f:
+                    f.write(old)
+            body = pat(ci + 5, n)
+            case = PutCase("full", old, body)
+            if enc == "cl":
+                data = wire(case.req(), host.encode(), None)
+                hdr_len = len(data) - n
+            else:
+                head = b"PUT /t HTTP/1.1\r\nHost: " + host.encode() + b"\r\nTransfer-Encoding: chunked\r\n\r\n"
+                chunks = b"".join(b"%x\r\n" % len(body[k:k + 5000]) + body[k:k + 5000] + b"\r\n"
+                                  for k in range(0, n, 5000))
+                data = head + chunks + b"0\r\n\r\n"
+                hdr_len = len(head)
+            upto = hdr_len + int(frac * (len(data) - hdr_len))
+            if frac > 0.99:
+                upto = len(data) - 1
+            send_partial(srv.port, data, upto, mode == "rst")
+            ok = False
+            for _ in range(40):           # the server notices the abort within its event loop
+                tgt, others = dir_state(docroot, "t")
+                uploads = os.listdir(os.path.join(srv.root, "tmp"))
+                if tgt == old and not others and not uploads:
+                    ok = True
+                    break
+                time.sleep(0.05)
+            ctx.evaluations += 1
+            ctx.keys["put-abort:%s:%s:%s:%s" % ("new" if old is None else "replace", enc, mode,
+                                                 "hdr" if frac == 0 else "body")] += 1
+            if not ok:
+                j = judge_put(case, None, tgt, others, uploads, False) or \
+                    ("put-abort-changed", "%s aborted by the client after %d of %d body bytes (%s, %s): target "
+                     "changed" % (case.describe(), upto - hdr_len, len(data) - hdr_len, enc, mode))
+                findings.append(dict(kind="oracle", sig=j[0], what=j[1] + " [client abort after %d of %d bytes, %s, %s]"
+                                     % (upto - hdr_len, len(data) - hdr_len, enc, mode), step=ci, obs="", model="",
+                                     input="abort old=%s n=%d upto=%d mode=%s enc=%s" %
+                                     ("none" if old is None else len(old), n, upto - hdr_len, mode, enc)))
+                continue
+            if ci % 10 == 0:              # the server is still healthy: a complete PUT goes through
+                st, _, _ = http(srv.port, wire(case.req(), host.encode(), None))
+                tgt, others = dir_state(docroot, "t")
+                j = judge_put(case, st, tgt, others, [], False)
+                if j or tgt != body:
+                    findings.append(dict(kind="oracle", sig="put-after-abort", what="complete PUT after an aborted "
+                                         "one: status %s, %s" % (st, j), step=ci, obs="", model="", input=""))
+        rep = srv.sanitizer_report()
+        if rep or not srv.alive():
+            findings.append(dict(kind="oracle", sig="server-crash", step=0, obs="", model="", input="put-abort",
+                                 what="server crashed during aborted uploads: " + (rep or srv.logs()[-1500:])[:1800]))
+    finally:
+        srv.stop()
+    # SIGKILL in the middle of an upload (no strace): nothing of the upload may be visible
+    nk = 4 if ctx.quick else 16
+    for ki in range(nk):
+        srv = start_server(bd).start()
+        try:
+            host = "k%d.test" % ki
+            docroot = os.path.join(srv.root, "v", host)
+            os.makedirs(docroot)
+            old = None if ki % 2 else pat(9, 50000)
+            if old is not None:
+                with open(os.path.join(docroot, "t"), "wb") as f:
+                    f.write(old)
+            case = PutCase("full", old, pat(ki + 40, 300000))
+            data = wire(case.req(), host.encode(), None)
+            s = socket.create_connection(("127.0.0.1", srv.port), timeout=5)
+            s.sendall(data[:len(data) - rng.randint(1, 200000)])
+            time.sleep(0.1)
+            srv.proc.kill()
+            srv.proc.wait()
+            s.close()
+            tgt, others = dir_state(docroot, "t")
+            ctx.evaluations += 1
+            ctx.keys["put-kill-midupload:%s" % ("new" if old is None else "replace")] += 1
+            j = judge_put(case, None, tgt, others, [], True)
+            if j or tgt != old or others:
+                findings.append(dict(kind="oracle", sig=(j or ("put-kill-visible",))[0], step=ki, obs="", model="",
+                                     input="kill-midupload", what="server killed in mid-upload: %s; names %r" %
+                                     (j[1] if j else "target changed", others)))
+        finally:
+            srv.stop(signal.SIGKILL)
+    report_findings(ctx, "put-abort", findings, lambda f: f["input"])
+    ctx.streams.append({"name": "put-abort", "cases": len(cases) + nk, "disagreements": 0,
+                        "oracle_hits": len(findings), "wall_s": round(time.time() - t0, 2)})
+
+
+def stream_sampler(ctx, bd):
+    """concurrent GETs while large PUTs (full, Content-Range, zero-length) replace the target"""
+    t0 = time.time()
+    findings = []
+    srv = start_server(bd).start()
+    host = "g.test"
+    docroot = os.path.join(srv.root, "v", host)
+    os.makedirs(docroot)
+    versions = [pat(11, 1500000)]
+    with open(os.path.join(docroot, "t"), "wb") as f:
+        f.write(versions[0])
+    allowed = {hashlib.sha256(versions[0]).digest(): 0}
+    stop = threading.Event()
+    bad = []
+    counts = [0, 0]
+    lock = threading.Lock()
+
+    def sampler():
+        req = wire(Req("GET", [b"t"], False), host.encode(), None)
+        while not stop.is_set():
+            try:
+                st, hd, body = http(srv.port, req, timeout=10)
+            except e2e.RespParseError as ex:
+                with lock:
+                    bad.append("malformed response to a concurrent GET: %s" % ex)
+                continue
+            counts[0] += 1
+            if st == 200:
+                h = hashlib.sha256(body).digest()
+                with lock:
+                    if h not in allowed:
+                        bad.append("concurrent GET returned %d bytes that are no complete version of the target "
+                                   "(versions so far: %s)" % (len(body), [len(v) for v in versions]))
+                    else:
+                        counts[1] += (allowed[h] == len(versions) - 1)
+            elif st != 404:
+                with lock:
+                    bad.append("concurrent GET answered %d" % st)
+    ths = [threading.Thread(target=sampler) for _ in range(3)]
+    for th in ths:
+        th.start()
+    try:
+        plan = [("full", pat(12, 2500000)), ("part:1000", pat(13, 700000)), ("full", pat(14, 900000)),
+                ("zero", b""), ("full", pat(15, 2000000)), ("part:1999990", pat(16, 300000))]
+        if not ctx.quick:
+            plan = plan * 3
+        for pi, (kind, body) in enumerate(plan):
+            case = PutCase(kind, versions[-1], body)
+            newv = case.new()
+            with lock:
+                versions.append(newv)
+                allowed[hashlib.sha256(newv).digest()] = len(versions) - 1
+            data = wire(case.req(), host.encode(), None)
+            s = socket.create_connection(("127.0.0.1", srv.port), timeout=10)
+            try:
+                step = max(1, len(data) // 12)
+                for k in range(0, len(data), step):
+                    s.sendall(data[k:k + step])
+                    time.sleep(0.03)
+                s.settimeout(10)
+                buf = b""
+                while True:
+                    d = s.recv(65536)
+                    if not d:
+                        break
+                    buf += d
+                    if b"\r\n\r\n" in buf:
+                        break
+            finally:
+                s.close()
+            ctx.evaluations += 1
+            ctx.keys["sampler:put:%s:%s" % (kind.split(":")[0], buf[9:12].decode("latin-1"))] += 1
+            if not buf.startswith(b"HTTP/1.1 20"):
+                findings.append(dict(kind="oracle", sig="sampler-put-failed", step=pi, obs="", model="", input="sampler",
+                                     what="large %s was answered %r" % (case.describe(), buf[:40])))
+            time.sleep(0.15)
+    finally:
+        stop.set()
+        for th in ths:
+            th.join()
+        rep = srv.sanitizer_report()
+        srv.stop()
+    with open(os.path.join(docroot, "t"), "rb") as f:
+        final = f.read()
+    if final != versions[-1]:
+        bad.append("after the last PUT the target is not the last version")
+    if rep:
+        bad.append("sanitizer report: " + rep[:1500])
+    for b in bad[:3]:
+        findings.append(dict(kind="oracle", sig="concurrent-read", step=0, obs="", model="", input="sampler", what=b))
+    ctx.evaluations += counts[0]
+    ctx.keys["sampler:get:complete-version"] += counts[0]
+    ctx.notes.append("sampler: %d concurrent GETs during %d large PUTs, %d of them already saw the newest version"
+                     % (counts[0], len(versions) - 1, counts[1]))
+    report_findings(ctx, "put-sampler", findings, lambda f: f["input"])
+    ctx.streams.append({"name": "put-sampler", "cases": counts[0], "disagreements": 0, "oracle_hits": len(findings),
+                        "wall_s": round(time.time() - t0, 2)})
+
+
 def run(ctx):
     bd, err = e2e.build_server()
     if bd is None:
         ctx.broken.append({"kind": "server-build", "names": ["lighttpd"], "log": (err or "")[-3000:]})
         return
     stream_seq(ctx, bd)
+    startup_count, calib = stream_put_trace(ctx, bd)
+    stream_put_fault(ctx, bd, startup_count, calib)
+    stream_put_abort(ctx, bd)
+    stream_sampler(ctx, bd)
     ctx.rule = ("distinct (stream, method, status, reference verdict) / (PUT kind, fault, outcome) tuples "
                 "observed on the real server")
     ctx.trusted = ["Lean 4.33.0 kernel", "hand-written models tied to the code by the e2e streams below",
